@@ -8,8 +8,12 @@ import (
 	"strconv"
 	"strings"
 
+	"time"
+
 	"github.com/vmware/go-ipfix/pkg/collector"
+	"github.com/vmware/go-ipfix/pkg/entities"
 	cmdc "github.com/vmware/go-ipfix/pkg/verifsim/cmdcollector"
+	"github.com/vmware/go-ipfix/pkg/verifsim/simnet"
 
 	"verif/oracle/ipfixref"
 	"verif/sim/plan"
@@ -24,6 +28,19 @@ import (
 
 func genC20Pipeline(r *rand.Rand, pl *plan.Plan) {
 	pl.Cfg["pipeline"] = 1
+	if r.IntN(2) == 0 {
+		// the whole way: a TCP session to a started collecting process whose message channel feeds the
+		// store, as run() wires it. Valid messages only (an invalid one ends a TCP session), some of
+		// them with padding behind the last record.
+		pl.Cfg["pipe_tcp"] = 1
+		pl.Cfg["mode"] = int64(r.IntN(3))
+		for i, n := 0, 3+r.IntN(10); i < n; i++ {
+			kind := []string{"data", "data", "padded", "padded", "tmpl"}[r.IntN(5)]
+			pl.Ops = append(pl.Ops, plan.Op{K: "pmsg", S: kind, A: int64(r.IntN(2)), B: int64(1 + r.IntN(3)), C: int64(r.Uint64() >> 1), D: int64(r.IntN(3))})
+		}
+		genSchedule(r, pl, 4, 3000)
+		return
+	}
 	pl.Mode = "plain"
 	pl.Cfg["mode"] = int64(r.IntN(3))
 	n := 4 + r.IntN(14)
@@ -74,7 +91,96 @@ func catByName(n string) elemSpec {
 	panic("catalogue has no " + n)
 }
 
+// runC20PipeTCP: client -> TCP -> collecting process -> message channel -> addIPFIXMessage -> queries.
+func runC20PipeTCP(pl *plan.Plan, out *plan.Outcome) {
+	env := newEnv(pl, out, keepLogFlag)
+	cmdc.VerifClear()
+	addr := "10.0.0.1:4739"
+	cp, err := collector.InitCollectingProcess(collector.CollectorInput{Address: addr, Protocol: "tcp", MaxBufferSize: 65535, DecodingMode: modeNames[int(cfgOr(pl, "mode", 0))%3]})
+	if err != nil {
+		out.Trouble = err.Error()
+		return
+	}
+	var want []int
+	env.Go("collector", func() { cp.Start() })
+	env.Go("store", func() {
+		for {
+			var msg *entities.Message
+			var ok bool
+			Block("consume", func() { msg, ok = <-cp.GetMsgChan() })
+			if !ok {
+				return
+			}
+			cmdc.VerifAdd(msg)
+		}
+	})
+	env.Go("client", func() {
+		env.Sleep(time.Millisecond)
+		var c *simnet.Conn
+		var err error
+		Block("dial", func() { c, err = env.Net.Dial("tcp", addr) })
+		if err != nil {
+			out.Trouble = "dial: " + err.Error()
+			return
+		}
+		seq := uint32(1000)
+		sent := [2]bool{}
+		write := func(b []byte) {
+			Block("write", func() { c.Write(b) })
+			want = append(want, int(seq))
+		}
+		for i, op := range pl.Ops {
+			if op.K != "pmsg" {
+				continue
+			}
+			slot := int(op.A) & 1
+			t := c20PipeTemplate(slot)
+			r := rand.New(rand.NewPCG(uint64(op.C), 0xc20e))
+			seq++
+			h := ipfixref.Header{Sequence: seq, ExportTime: 946684800 + uint32(i)}
+			if !sent[slot] {
+				write(t.templateMsg(h))
+				sent[slot] = true
+				seq++
+				h.Sequence = seq
+			}
+			switch op.S {
+			case "tmpl":
+				write(t.templateMsg(h))
+			case "padded":
+				body := t.dataBody(r, int(op.B), 40, false, false)
+				body = append(body, make([]byte, 1+int(op.D))...) // 1-3 bytes: shorter than any record
+				write(t.dataMsg(h, body))
+				env.Count("probe.padded_set_followed_by_more", 1)
+			default:
+				write(t.dataMsg(h, t.dataBody(r, int(op.B), 40, false, false)))
+			}
+			if op.D == 2 {
+				env.Sleep(time.Millisecond)
+			}
+		}
+		env.Sleep(time.Second)
+		Block("close", func() { c.Close() })
+		env.Sleep(time.Second)
+		Block("stop", func() { cp.Stop() })
+		cp.CloseMsgChan()
+	})
+	if res := env.Run(); res != "done" && out.Trouble == "" {
+		out.Trouble = "run ended: " + res
+		return
+	}
+	c20CheckWindow(plainEnv{pl, out}, want)
+	out.Add("c20.pipeline_member", 1)
+	out.Add("c20.arrivals", int64(len(want)))
+	out.Nontrivial = len(want) >= 2
+	out.Sample = map[string]any{"member": "pipeline over tcp", "stored": len(want), "operations": len(pl.Ops)}
+}
+
 func runC20Pipeline(pl *plan.Plan, out *plan.Outcome) {
+	if cfgOr(pl, "pipe_tcp", 0) == 1 {
+		runC20PipeTCP(pl, out)
+		return
+	}
 	env := plainEnv{pl, out} // no scheduler: one goroutine drives the collecting process's decode path
 	cmdc.VerifClear()
 	cp, err := collector.InitCollectingProcess(collector.CollectorInput{Address: "10.0.0.1:4739", Protocol: "tcp", MaxBufferSize: 65535, DecodingMode: modeNames[int(cfgOr(pl, "mode", 0))%3]})
@@ -147,7 +253,16 @@ func runC20Pipeline(pl *plan.Plan, out *plan.Outcome) {
 			feed(b, false, "random")
 		}
 	}
-	// what the store holds
+	c20CheckWindow(env, want)
+	out.Add("c20.pipeline_member", 1)
+	out.Add("c20.arrivals", int64(len(want)))
+	out.Nontrivial = len(want) >= 2
+	out.Hash = fmt.Sprintf("pipe-%d", pl.Seed)
+	out.Sample = map[string]any{"member": "pipeline", "stored": len(want), "operations": len(pl.Ops)}
+}
+
+// c20CheckWindow: the store holds exactly the messages with the sequence numbers in want, in order.
+func c20CheckWindow(env plainEnv, want []int) {
 	for _, q := range []struct {
 		n      int
 		format string
@@ -187,9 +302,4 @@ func runC20Pipeline(pl *plan.Plan, out *plan.Outcome) {
 			env.Violate("window", "pipeline", "GET %s returns the messages with sequence numbers %v, the last %d received are %v", url, got, len(exp), exp)
 		}
 	}
-	out.Add("c20.pipeline_member", 1)
-	out.Add("c20.arrivals", int64(len(want)))
-	out.Nontrivial = len(want) >= 2
-	out.Hash = fmt.Sprintf("pipe-%d", pl.Seed)
-	out.Sample = map[string]any{"member": "pipeline", "stored": len(want), "operations": len(pl.Ops)}
 }
